@@ -62,7 +62,7 @@ def floors(tier):
             'strict_equal_compared': 10000, 'prefix_rule_checked': 8000, 'recovery_exercised': 15000,
             'text_retention_checked': 20000, 'histkeys:truncation_tail': 9,
             'custom_context_soups': 500, 'parser_class_context_soups': 1000,
-            'parses_from_configured_state': 2000, 'histkeys:start_state': 17}
+            'parses_from_configured_state': 2000, 'stop_condition_entry_points': 3000, 'histkeys:start_state': 17}
 
 
 def setup(rec):
@@ -75,6 +75,13 @@ def tolerant_parse(s, ctx, rec, psopts=None):
     try:
         with budget.watchdog(20):
             nl = parse(s, ctx=ctx, tolerant=True, psopts=psopts)
+            if len(s) % 4 == 1 and not psopts:
+                # the entry points with a node-count stop condition are tolerant too
+                from ..util import walker
+                from pylatexenc.latexnodes.parsers import LatexSingleNodeParser
+                rec.monitor('stop_condition_entry_points')
+                walker(s, ctx, tolerant=True).get_latex_nodes(read_max_nodes=1 + len(s) % 3)
+                walker(s, ctx, tolerant=True).parse_content(LatexSingleNodeParser())
         return 'ok', nl
     except budget.StepBudgetExceeded as e:
         return 'budget', str(e)
@@ -222,8 +229,6 @@ def run_shard(desc, rec):
         for j in range(max(1, desc['count'] // 400)):
             vseed = [rng.randrange(1 << 30), j]
             vocab, db = work.vocab_from_seed(vseed)
-            if not vocab.unknown_ok:
-                continue
             for s in work.custom_soups(rng, vocab, 100):
                 rec.case()
                 rec.monitor('custom_context_soups')
